@@ -77,6 +77,9 @@ pub trait ExFromStr: Sized {
 #[verifier::external_type_specification]
 #[verifier::external_body]
 pub struct ExPathBuf(std::path::PathBuf);
+#[verifier::external_type_specification]
+#[verifier::external_body]
+pub struct ExIoError(std::io::Error);
 #[verifier::external_trait_specification]
 pub trait ExRead {
     type ExternalTraitSpecificationFor: std::io::Read;
